@@ -438,6 +438,7 @@ def main(check: Check, argv=None) -> int:
     ap.add_argument("--digests", default=None, help="internal: print digests of run indices")
     ap.add_argument("--budget", type=float, default=float(os.environ.get("VERIF_BUDGET_S", "0")), help="thorough: keep drawing new runs until this many seconds elapsed")
     ap.add_argument("--no-evidence", action="store_true")
+    ap.add_argument("--warm", action="store_true", help="populate on-disk JIT caches for this check and exit")
     args = ap.parse_args(argv)
 
     seed = args.seed if args.seed is not None else int(os.environ.get("VERIF_SEED", "20260925"))
@@ -448,6 +449,11 @@ def main(check: Check, argv=None) -> int:
             return replay_file(check, args.replay)
         cfg = check.tiers[tier]
         check.warmup(tier)
+        if args.warm:
+            bad = check.warm_all(args.workers) if hasattr(check, "warm_all") else []
+            for b in bad[:3]:
+                print(f"HARNESS-ERROR: warm-up failed: {str(b)[-3000:]}")
+            return 2 if bad else 0
         if args.digests:
             idx = [int(x) for x in args.digests.split(",") if x]
             results, errs = run_indices(check, seed, tier, idx, args.workers, 1, cfg["timeout"])
